@@ -1,0 +1,51 @@
+//go:build verif
+// +build verif
+
+// Machine-checked contracts for this package (checked by /verif/govc).
+// Comment-only: no executable code.
+
+package handler
+
+//@ import types "github.com/ovrclk/akash/x/deployment/types"
+//@ import keeper "github.com/ovrclk/akash/x/deployment/keeper"
+//@ import mkeeper "github.com/ovrclk/akash/x/market/keeper"
+//@ import handler "github.com/ovrclk/akash/x/deployment/handler"
+//@ import sdk "github.com/cosmos/cosmos-sdk/types"
+
+// A-WIRING: in the application the handler's keeper interfaces are these implementations (app/app.go)
+//@ bind keeper.IKeeper => keeper.Keeper
+//@ bind handler.MarketKeeper => mkeeper.Keeper
+
+//@ spec dsk(ms: msgServer): iface = unbox(ms.deployment, keeper.Keeper).skey
+//@ spec msk(ms: msgServer): iface = unbox(ms.market, mkeeper.Keeper).skey
+//@ spec dwired(ms: msgServer): bool = typeis(ms.deployment, keeper.Keeper) && typeis(ms.market, mkeeper.Keeper)
+//@     && msk(ms) != mktEscrowSKey() && dsk(ms) != mktEscrowSKey() && msk(ms) != dsk(ms)
+//@ spec gdep(id: types.GroupID): types.DeploymentID
+//@ axiom gdepDef: forall id: types.GroupID :: gdep(id).Owner == id.Owner && gdep(id).DSeq == id.DSeq
+//@   trigger gdep(id)
+
+// ---- group lifecycle ----------------------------------------------------------------------------
+// A group is started or paused only under an active deployment (a closed deployment has no open or paused
+// group), and only from the states the guards allow; starting creates the group's order while it is open;
+// pausing and closing close everything beneath the group.
+//@ func (msgServer).StartGroup
+//@   requires msg != nil && dwired(ms)
+//@   modifies ghost KVhas, ghost KVval, ghost G, ghost EvN, ghost EvLog, ghost It_all
+//@   ensures [active] result1 == nil ==> old(KVhas)[dsk(ms)][deploymentKeyOf(gdep(msg.ID))] && depOf(old(KVval)[dsk(ms)], gdep(msg.ID)).State == types.DeploymentActive
+//@   ensures [startable] result1 == nil ==> old(KVhas)[dsk(ms)][groupKeyOf(msg.ID)]
+//@        && grpOf(old(KVval)[dsk(ms)], msg.ID).State != types.GroupClosed && grpOf(old(KVval)[dsk(ms)], msg.ID).State != types.GroupOpen
+//@   oncall keeper.(IKeeper).OnStartGroup 1 assert callresult == nil ==> grpOf(KVval[dsk(ms)], group.GroupID).State == types.GroupOpen
+//@ func (msgServer).PauseGroup
+//@   requires msg != nil && dwired(ms)
+//@   modifies ghost KVhas, ghost KVval, ghost G, ghost Bank, ghost Mod, ghost It_all, ghost EvN, ghost EvLog, ghost PayCloseReq
+//@   ensures [active] result1 == nil ==> old(KVhas)[dsk(ms)][deploymentKeyOf(gdep(msg.ID))] && depOf(old(KVval)[dsk(ms)], gdep(msg.ID)).State == types.DeploymentActive
+//@   ensures [pausable] result1 == nil ==> old(KVhas)[dsk(ms)][groupKeyOf(msg.ID)]
+//@        && grpOf(old(KVval)[dsk(ms)], msg.ID).State != types.GroupClosed && grpOf(old(KVval)[dsk(ms)], msg.ID).State != types.GroupPaused
+//@   oncall keeper.(IKeeper).OnPauseGroup 1 assert callresult == nil ==> grpOf(KVval[dsk(ms)], group.GroupID).State == types.GroupPaused
+//@ func (msgServer).CloseGroup
+//@   requires msg != nil && dwired(ms)
+//@   modifies ghost KVhas, ghost KVval, ghost G, ghost Bank, ghost Mod, ghost It_all, ghost EvN, ghost EvLog, ghost PayCloseReq
+//@   ensures [closable] result1 == nil ==> old(KVhas)[dsk(ms)][groupKeyOf(msg.ID)] && grpOf(old(KVval)[dsk(ms)], msg.ID).State != types.GroupClosed
+//@   oncall keeper.(IKeeper).OnCloseGroup 1 assert callresult == nil ==> grpOf(KVval[dsk(ms)], group.GroupID).State == types.GroupClosed
+
+//@ property C04 := (msgServer).StartGroup#*, (msgServer).PauseGroup#*, (msgServer).CloseGroup#*
